@@ -345,9 +345,12 @@ namespace igris
             size_t oldsize = m_size;
             if (n > oldsize)
             {
-                for (size_t i = oldsize; i < n; ++i)
+                // count every element as soon as it exists: if a later
+                // constructor throws, the ones built so far stay owned
+                while (m_size < n)
                 {
-                    igris::constructor(m_data + i);
+                    igris::constructor(m_data + m_size);
+                    m_size++;
                 }
             }
             else
